@@ -132,4 +132,23 @@ theorem isAbsolutePath_translated (path : Bytes) (fuel : Nat) :
     rw [h4, h5]
     simp
 
+/-- all strings of length ≤ n over {a, '.', '/', '\\'} -/
+def smallStrings : Nat → List Bytes
+  | 0 => [[]]
+  | n + 1 => [] :: ((smallStrings n).flatMap fun s => [97 :: s, 46 :: s, 47 :: s, 92 :: s])
+
+/-
+OPEN: `∀ path fuel, 2 * path.length + 3 ≤ fuel → PathScan.simplifyPath fuel path = some (simplifyPath path)`.
+The body of File::simplifyPath IS translated on every run (outer `for(;;)`, the two skipping `while` loops, the
+look-back loop with `goto cont` / `break`), but the equality with the model's `chunks`/`sstep` fold is not proved; what is
+checked by the kernel on every build is the bounded statement below (a TEST of the translation, not a theorem over all
+strings).  When the translator does not understand the current body it says so (evidence: `translated`), the model function
+stands in and the statement below is void; simplifyPath is then tied by the correspondence run only.
+-/
+/-- bounded check of the translated File::simplifyPath: on all 341 strings of length ≤ 4 over {a, '.', '/', '\\'} the
+    translated body computes the model function -/
+theorem simplifyPath_translated_small :
+    (smallStrings 4).all (fun p => Nstd.Generated.PathScan.simplifyPath 10 p == some (Nstd.Path.simplifyPath p)) = true := by
+  decide +kernel
+
 end Nstd.Path.Scan
